@@ -77,6 +77,10 @@ inductive OwnerSrc
   | iface (name : String) (unconditional : Bool)   -- `fi.(name)`
   deriving Repr, DecidableEq
 
+def OwnerSrc.unconditional : OwnerSrc → Bool
+  | .sysType _ u => u
+  | .iface _ u => u
+
 /-- What matters of an `os.FileInfo` for the owner: the dynamic type of `Sys()` ("nil" for nil) with
 the ids found in it, the optional interfaces it implements, and what `Uid()`/`Gid()` return. -/
 structure InfoShape where
